@@ -100,7 +100,10 @@ def compareOk (r : Report) (g : Got) : List String :=
     | some (_, v') => if v' != v then some s!"{k}: expected '{v}', runtime has '{v'}'" else none
     | none => if (cfgKeysList.contains k) then some s!"{k}: not reported" else none)
   let d6 := if g.masks.length != r.workers then [s!"{g.masks.length} worker masks for {r.workers} workers"] else []
-  d1 ++ d1b ++ d2 ++ d3 ++ d3b ++ d4 ++ d5 ++ d6
+  let bindNone := cfgLookup r.cfg "pika.bind" == "none"
+  let d7 := if bindNone && g.masks.any (· != "-") then ["pika.bind=none but some workers have an affinity mask"]
+    else if !bindNone && g.masks.any (· == "-") then [s!"pika.bind={cfgLookup r.cfg "pika.bind"} but some workers have no affinity mask"] else []
+  d1 ++ d1b ++ d2 ++ d3 ++ d3b ++ d4 ++ d5 ++ d6 ++ d7
 
 /-! ## independent monitors: the precedence clauses tested directly on the observables -/
 
@@ -216,7 +219,13 @@ def monitors (m : Machine) (inp : Input) (g : Got) : List String :=
   let valueLess := inp.argv.any (fun a => isPrefix "--" a && (argLong a).isNone)
   let m9 := if ok && !valueLess && (g.argv.filter (fun a => !isPrefix "-" a)) != positional then
       [s!"positional arguments {positional} reached the entry function as {g.argv}"] else []
-  m1 ++ m2 ++ m3 ++ m4 ++ m5 ++ m6 ++ m7 ++ m8 ++ m9
+  -- (8) binding given on the command line is in force: none = no masks, anything else = every worker bound
+  let m10 := if ok && count "pika:bind" == 1 then
+      let v := ((longs.find? (fun p => p.1 == "pika:bind")).map (·.2)).getD ""
+      if v == "none" && g.masks.any (· != "-") then ["command line --pika:bind=none but workers are bound"]
+      else if v != "none" && g.masks.any (· == "-") then [s!"command line --pika:bind={v} but some workers are not bound"] else []
+    else []
+  m1 ++ m2 ++ m3 ++ m4 ++ m5 ++ m6 ++ m7 ++ m8 ++ m9 ++ m10
 
 def parseInput (c : Case) : Input × Got :=
   c.lines.foldl (fun (acc : Input × Got) l =>
@@ -245,7 +254,9 @@ def runCase (c : Case) : String :=
       s!"case {c.id} reject 0 [model ok workers={r.workers} policy={r.policy} ; impl {gs}] ; {monS}"
     else
       match compareOk r g with
-      | [] => s!"case {c.id} accept ok workers={r.workers} policy={r.policy} stack={r.stackSmall} argc={r.argv.length} ; {monS}"
+      | [] =>
+        let bk := s!"{cfgLookup r.cfg "pika.bind"}/{cfgLookup r.cfg "pika.os_threads"}/{cfgLookup r.cfg "pika.cores"}/{cfgLookup r.cfg "pika.ignore_process_mask"}"
+        s!"case {c.id} accept ok workers={r.workers} policy={r.policy} stack={r.stackSmall} argc={r.argv.length} bindkey={bk} ; {monS}"
       | ds => s!"case {c.id} reject 0 [{" | ".intercalate ds}] ; {monS}"
 
 /-- keys the probe is asked to report -/
